@@ -1,4 +1,5 @@
 import BufrProofs.RefCodec
+import BufrProofs.Bitmap
 import BufrSpec.RefEncode
 /-
   C04 — The decoder accepts every well-formed FM 94 message and returns the encoded values.
@@ -108,6 +109,33 @@ theorem C04_af_column_listed (r : R) (cb : Node) (col : List Node) (g : Range) (
       r'.bits = rest ∧ RInv r' :=
   getAfCompressed_listed r cb col g r0 k incs rest hI haf hw hk0 hk hfull hn hb
 
+/-- **data present bit-map: what a marker operator stands for.**  With the bit-map evaluated over
+the sequence `bsq0` — `dataPositions bsq0` the data elements in front of the first operator that
+opens a bit-map section (2 22/2 23/2 24/2 25/2 32 000), `zeroBits` the positions of the bits that
+say "present" among the first `|dataPositions|` 0 31 031 values behind it (`initDpbm_eval`: this
+is what `bufr_init_dpbm` leaves in `dp[]`) — the `k+1`-th replica of a marker operator
+(2 23 255, 2 24 255, 2 25 255, 2 32 255) is decoded with the type, width, scale, reference value
+and associated-field width of the `k+1`-th element flagged present, into a value of that element's
+type; the operator state is left alone.  FM 94 lets a bit-map refer to the N elements *preceding*
+the operator with N smaller than their number; the library only supports bit-maps over all of them
+(it warns otherwise) and the statement is about exactly that reading. -/
+theorem C04_marker_refers (bsq0 bsq : List Node) (ddo : DDO) (r : Int) (d : DPBM) (n : Node) (k pos q : Nat) (cbm : Node)
+    (hd : d.dp = zeroBits (dataPositions bsq0).length (bitmapNodes bsq0) 0 ∧ d.index = dataPositions bsq0)
+    (hm : isMarkerDpbm n.desc = true) (hk : n.replRank = k + 1)
+    (hz : (zeroBits (dataPositions bsq0).length (bitmapNodes bsq0) 0)[k]? = some pos)
+    (hq1 : (dataPositions bsq0)[pos]? = some (q + 1)) (hq2 : bsq[q]? = some cbm) :
+    bmPre bsq ddo { dpbm := some d, remainDpi := r } n =
+      .ret { dpbm := some d, remainDpi := r }
+        { n with enc := cbm.enc, val := (markerVal cbm).1, afW := (markerVal cbm).2.1, afBits := (markerVal cbm).2.2 } :=
+  marker_refers bsq0 bsq ddo r d n k pos q cbm hd hm hk hz hq1 hq2
+
+/-- the premise of `C04_marker_refers` is what the evaluation of the bit-map produces -/
+theorem C04_bitmap_evaluated (bsq0 : List Node) :
+    (initDpbm { index := dataPositions bsq0 } bsq0 (startPos bsq0)).dp =
+      zeroBits (dataPositions bsq0).length (bitmapNodes bsq0) 0 ∧
+    (initDpbm { index := dataPositions bsq0 } bsq0 (startPos bsq0)).index = dataPositions bsq0 :=
+  initDpbm_eval bsq0
+
 /-- the reference encoder never asks for less than one bit per increment -/
 theorem C04_minNbinc_pos (d : Nat) : 1 ≤ minNbinc d := by unfold minNbinc; omega
 
@@ -117,5 +145,20 @@ theorem C04_minNbinc_pos (d : Nat) : 1 ≤ minNbinc d := by unfold minNbinc; ome
 example : readColumn 12 3 (bitsMSB 12 100 ++ bitsMSB 6 9 ++ [5, 511, 300].flatMap (bitsMSB 9) ++ [true]) =
     some ([105, 4095, 400], [true]) := by decide +kernel
 example : (⟨3, 0, 0⟩ : Range).OK := Or.inl (by decide)
+
+/-- pressure, (a replication, left out), temperature, 2 24 000, 2 36 000, three bits 0 1 0 … : the data elements
+sit at positions 1 and 3, the bits flagged present are the first and the third, so a bit-map of two bits has
+positions [0] … here with three elements and bits 0,1,0 -/
+def bmExample : List Node :=
+  [{ desc := 10004 }, { desc := 12101 }, { desc := 12103 }, { desc := 224000 }, { desc := 236000 },
+   { desc := 101003, flags := { expanded := true, skipped := true } },
+   { desc := 31031, val := .i32 0 }, { desc := 31031, val := .i32 (-1) }, { desc := 31031, val := .i32 0 },
+   { desc := 101002, flags := { expanded := true, skipped := true } },
+   { desc := 224255, replRank := 1 }, { desc := 224255, replRank := 2 }]
+example : dataPositions bmExample = [1, 2, 3] := by decide
+example : zeroBits 3 (bitmapNodes bmExample) 0 = [0, 2] := by decide
+-- the second marker stands for the third element (0 12 103)
+example : (zeroBits (dataPositions bmExample).length (bitmapNodes bmExample) 0)[1]? = some 2 ∧
+    (dataPositions bmExample)[2]? = some (2 + 1) ∧ (bmExample[2]?).map (·.desc) = some 12103 := by decide
 
 end Bufr.C04
